@@ -103,11 +103,11 @@ def install(reg: Registry):
             'raised by a listener propagates out of parser.mal(); with no raising listener the parser recovers and returns a tree')
     T_('antlr4:CommonTokenStream.LT', {'self': Obj('CommonTokenStream'), 'k': T.int}, returns=Obj('Token'), allocates=True,
        modifies=('f_Token__type', 'f_line', 'f_column', 'f_text') + OBJ,
-       ensures=lambda c: [('eof-iff-consumed', (c.h.f('Token__type', c.res) == -1) == z3.Not(Tail(c.old.f('fpath', c.old.f('lsrc', c.old.f('tlexer', c.self)))))),
+       ensures=lambda c: [('eof-iff-consumed', z3.Implies(c.k == 1, (c.h.f('Token__type', c.res) == -1) == z3.Not(Tail(c.old.f('fpath', c.old.f('lsrc', c.old.f('tlexer', c.self))))))),
                           ('fresh', c.res >= c.old.alloc),
                           ('old', z3.And(*[FA([A('x!lt')], z3.Implies(A('x!lt') < c.old.alloc, z3.Select(c.h.arr[n], A('x!lt')) == z3.Select(c.old.arr[n], A('x!lt'))),
                                               [z3.Select(c.h.arr[n], A('x!lt'))]) for n in c.h.arr if not z3.eq(c.h.arr[n], c.old.arr[n])]))],
-       note='after parser.mal() returned: LT(1) is EOF iff the parser consumed the whole input')
+       note='after parser.mal() returned: LT(1) is EOF iff the parser consumed the whole input (nothing is assumed about LT(k), k != 1)')
     T_('maltoolbox.language.compiler.mal_visitor:malVisitor.__init__', {'self': Obj('malVisitor'), 'compiler': Obj('MalCompiler')},
        ensures=lambda c: [('compiler', c.h.f('compiler', c.self) == c.compiler)], modifies=('f_compiler',))
     T_('maltoolbox.language.compiler.mal_visitor:malVisitor.visit', {'self': Obj('malVisitor'), 'tree': Obj('ParseTree')},
